@@ -19,9 +19,12 @@ ResultFails(tb, e) ==
   LET cs == Dispatch(tb, e.addr, e.tags)
       must == Must(cs)  may == May(cs)
       k1 == KeysOf(e.noloc)  k2 == KeysOf(e.loc) IN
-  {k \in {"oob", "noloc_missed", "noloc_foreign", "noloc_twice", "loc_missed", "loc_foreign", "loc_twice", "strategy_differs",
+  {k \in {"oob", "oob_location_buffer", "exact_location_buffer_differs", "noloc_missed", "noloc_foreign", "noloc_twice", "loc_missed", "loc_foreign", "loc_twice", "strategy_differs",
           "loc_string", "loc_port", "matches", "object"} :
    ~ CASE k = "oob" -> e.asan = 0
+       \* a location buffer of exactly the address's size behaves like a large one; one that is too short is never written behind
+       [] k = "oob_location_buffer" -> ("asan_tight" \in DOMAIN e) => (e.asan_tight = 0 /\ e.asan_short = 0)
+       [] k = "exact_location_buffer_differs" -> ("tight" \in DOMAIN e) => (Range(KeysOf(e.tight)) = Range(k2) /\ e.matches_tight = e.matches)
        [] k = "noloc_missed"  -> must \subseteq Range(k1)
        [] k = "noloc_foreign" -> Range(k1) \subseteq may
        [] k = "noloc_twice"   -> NoDups(k1)
@@ -54,13 +57,17 @@ NoSiblingPrefix(tb) == /\ \A i, j \in 1..Len(tb.ports) : i # j => ~ IsPfx(NameNo
 StateFn(r) == [id \in { r.state[i][1] : i \in 1..Len(r.state) } |-> (CHOOSE i \in 1..Len(r.state) : r.state[i][1] = id) \in { i \in 1..Len(r.state) : r.state[i][2] }]
 RunFails(r, run) ==
   LET start == IF run.prefix = <<>> THEN <<47>> ELSE run.prefix
-      exp == WalkT(r.table, start, r.rt, StateFn(r))
+      exp3 == WalkT(r.table, start, r.rt, StateFn(r))
+      exp == [i \in 1..Len(exp3) |-> [id |-> exp3[i].id, addr |-> exp3[i].addr]]
       obs == [i \in 1..Len(run.walked) |-> [id |-> run.walked[i].id, addr |-> run.walked[i].addr]] IN
-  {k \in {"oob", "walk_missing", "walk_foreign", "walk_twice", "buffer_after", "reach", "reach_only", "lookup"} :
+  {k \in {"oob", "walk_missing", "walk_foreign", "walk_twice", "walker_port_part", "buffer_after", "reach", "reach_only", "lookup"} :
    ~ CASE k = "oob" -> run.asan = 0
        [] k = "walk_missing" -> Range(exp) \subseteq Range(obs)
        [] k = "walk_foreign" -> Range(obs) \subseteq Range(exp)
        [] k = "walk_twice"   -> NoDups(obs)
+       \* the walker's third argument points at the port's own part of the reported address (ports.h: "the part of the location which makes up the port")
+       [] k = "walker_port_part" -> \A i \in 1..Len(run.walked) : "part_off" \in DOMAIN run.walked[i] =>
+                                      \A j \in 1..Len(exp3) : (exp3[j].id = run.walked[i].id /\ exp3[j].addr = run.walked[i].addr) => run.walked[i].part_off = Len(exp3[j].addr) - exp3[j].plen
        [] k = "buffer_after" -> run.after = start
        [] k = "reach"        -> \A i \in 1..Len(run.reach) : run.reach[i].id \in Range(run.reach[i].ids)
        [] k = "reach_only"   -> NoNamesakes(r.table) => \A i \in 1..Len(run.reach) : run.reach[i].ids = <<run.reach[i].id>>
